@@ -49,6 +49,12 @@ func init() {
 type raceSink struct {
 	n      int
 	synced int
+	// failEvery > 0: every failEvery-th Write fails (alternately taking
+	// nothing and taking half of the line), like a device that is full or
+	// flaky now and then; what zap does on its error paths is part of the
+	// concurrent surface too
+	failEvery int
+	calls     int
 }
 
 func (s *raceSink) bump() { s.n++ }
@@ -69,8 +75,18 @@ func (s *raceSink) Write(p []byte) (int, error) {
 		sinkhole = x
 	}
 	s.bump()
+	s.calls++
+	if s.failEvery > 0 && s.calls%s.failEvery == 0 {
+		if (s.calls/s.failEvery)%2 == 0 {
+			return 0, errC09device
+		}
+		return len(p) / 2, errC09device
+	}
 	return len(p), nil
 }
+
+var errC09device = errors.New("injected device failure")
+
 func (s *raceSink) Sync() error {
 	zsim.Yield(zsim.KSink, unsafe.Pointer(s))
 	s.synced = s.n
@@ -120,9 +136,17 @@ func runC09(c *Ctx) {
 	table["c09"] = func(u *url.URL) (zap.Sink, error) { return &raceSink{}, nil }
 
 	// ---- core composition (swarm) ----
+	flaky := c.F.Chance(3)
 	mkIO := func(console bool) zapcore.Core {
-		return zapcore.NewCore(newEncoder(console), zapcore.Lock(&raceSink{}), w.lvl)
+		sk := &raceSink{}
+		if flaky {
+			sk.failEvery = 2 + c.F.Draw(3)
+			c.Fault("flaky-device")
+		}
+		return zapcore.NewCore(newEncoder(console), zapcore.Lock(sk), w.lvl)
 	}
+	guardDoublePut = c
+	defer func() { guardDoublePut = nil }()
 	obsCore, logs := observer.New(zapcore.DebugLevel)
 	w.logs = logs
 	var core zapcore.Core
@@ -157,7 +181,7 @@ func runC09(c *Ctx) {
 	if g.Chance(4) {
 		opts = append(opts, zap.AddStacktrace(zapcore.ErrorLevel))
 	}
-	if g.Chance(3) {
+	if g.Chance(3) || flaky {
 		opts = append(opts, zap.ErrorOutput(zapcore.Lock(&raceSink{})))
 	}
 	base := zap.New(core, opts...)
